@@ -115,9 +115,10 @@ func c04GenTree(t *rapid.T, depth int, label string) map[string]interface{} {
 // ---------------------------------------------------------------- A: flag families
 
 type c04ACase struct {
-	Files    []string `json:"files"`   // YAML text of each -f file, in order
-	JSON     []string `json:"setJSON"` // --set-json arguments
-	Set      []string `json:"set"`     // --set arguments
+	Files    []string `json:"files"`                     // YAML text of each -f file, in order
+	Again    []int    `json:"filesGivenAgain,omitempty"` // indexes into Files: -f arguments after the last file that name an earlier file once more
+	JSON     []string `json:"setJSON"`                   // --set-json arguments
+	Set      []string `json:"set"`                       // --set arguments
 	String   []string `json:"setString"`
 	File     []string `json:"setFile"`  // --set-file arguments (path=content-file-index)
 	FileData []string `json:"fileData"` // contents referenced by --set-file
@@ -130,6 +131,7 @@ func c04AProp(t *rapid.T) {
 	ref := map[string]interface{}{}
 	ok := true
 	defined := map[string]int{} // top-level key -> number of sources touching it
+	var fileTrees []map[string]interface{}
 	touch := func(k string) { defined[k]++ }
 	// -f files, earlier < later
 	for i, n := 0, rapid.IntRange(0, 3).Draw(t, "nFiles"); i < n; i++ {
@@ -154,7 +156,9 @@ func c04AProp(t *rapid.T) {
 			y2, _ := yaml.Marshal(tree2)
 			text += "---\n" + string(y2)
 			// (the documents of a file are merged with each other first, then the file is layered over what came before)
-			ref = refLayer(refLayer(tree2, deepCopyVal(tree).(map[string]interface{})), ref)
+			whole := refLayer(tree2, deepCopyVal(tree).(map[string]interface{}))
+			fileTrees = append(fileTrees, deepCopyVal(whole).(map[string]interface{}))
+			ref = refLayer(whole, ref)
 			for k := range tree2 {
 				touch(k)
 			}
@@ -165,10 +169,18 @@ func c04AProp(t *rapid.T) {
 			continue
 		}
 		c.Files = append(c.Files, text)
+		fileTrees = append(fileTrees, deepCopyVal(tree).(map[string]interface{}))
 		ref = refLayer(tree, ref)
 		for k := range tree {
 			touch(k)
 		}
+	}
+	// the same file named once more after the others (wrapper scripts re-apply a pin file last): every -f argument is a
+	// layer of its own, wherever else the same path occurs
+	if len(c.Files) >= 2 && rapid.IntRange(0, 4).Draw(t, "aFileGivenAgain") == 0 {
+		i := rapid.IntRange(0, len(c.Files)-2).Draw(t, "whichFileAgain")
+		c.Again = append(c.Again, i)
+		ref = refLayer(deepCopyVal(fileTrees[i]).(map[string]interface{}), ref)
 	}
 	// --set-json: object form or key=json
 	for i, n := 0, rapid.IntRange(0, 2).Draw(t, "nJSON"); i < n && ok; i++ {
@@ -279,6 +291,9 @@ func c04AJudge(tb vt.TB, c c04ACase) {
 		_ = os.WriteFile(p, []byte(f), 0o644)
 		opts.ValueFiles = append(opts.ValueFiles, p)
 	}
+	for _, i := range c.Again {
+		opts.ValueFiles = append(opts.ValueFiles, opts.ValueFiles[i])
+	}
 	for _, sf := range c.File {
 		for i, d := range c.FileData {
 			marker := fmt.Sprintf("@FILE%d@", i)
@@ -305,7 +320,7 @@ func c04AJudge(tb vt.TB, c c04ACase) {
 }
 
 func TestC04A(t *testing.T) {
-	evid.Extra("rule", "C04A: 0-3 -f files (generated trees with nulls, lists, nested tables; some with comments), 0-2 --set-json (object form and key=json), 0-2 --set (1-2 assignments each, paths with dots, escapes and list indexes, typed literals), 0-2 --set-string, 0-1 --set-file, 0-1 --set-literal; Options.MergeValues must equal the fold of the layers in the documented order (files in order < set-json < set < set-string < set-file < set-literal; tables merge, everything else replaces, null kept) computed by an independent reference; cases the reference calls ill-typed (a path running through an existing scalar/null/other container) are counted, not judged. Non-trivial = at least two sources define the same top-level key; distinct by the full argument set.")
+	evid.Extra("rule", "C04A: 0-3 -f files, one case in five with two or more files names an earlier file once more at the end (generated trees with nulls, lists, nested tables; some with comments), 0-2 --set-json (object form and key=json), 0-2 --set (1-2 assignments each, paths with dots, escapes and list indexes, typed literals), 0-2 --set-string, 0-1 --set-file, 0-1 --set-literal; Options.MergeValues must equal the fold of the layers in the documented order (files in order < set-json < set < set-string < set-file < set-literal; tables merge, everything else replaces, null kept) computed by an independent reference; cases the reference calls ill-typed (a path running through an existing scalar/null/other container) are counted, not judged. Non-trivial = at least two sources define the same top-level key; distinct by the full argument set.")
 	evid.Extra("assumptions", []string{"value literal classes limited to what the documentation fixes (true/false/null any case, 0, integers without leading zero, leading-zero digit strings, text, {a,b} lists, empty)", "stdin ('-') and remote value files are not used"})
 	rapid.Check(t, c04AProp)
 }
@@ -509,7 +524,7 @@ func c04CProp(t *rapid.T) {
 	// default for: it flows down and removes that default wherever it is (nulls on global keys that an ancestor defines
 	// as well stay outside the judged class, see assumptions)
 	if !clash && rapid.IntRange(0, 2).Draw(t, "userNullOnGlobalKey") == 0 {
-		if k := c04LonelyGlobalKey(t, c.Root); k != "" {
+		if k := c04LonelyGlobalKey(t, c.Root, c.User); k != "" {
 			ug, _ := c.User["global"].(map[string]interface{})
 			if ug == nil {
 				ug = map[string]interface{}{}
@@ -528,8 +543,23 @@ func c04CProp(t *rapid.T) {
 
 // c04LonelyGlobalKey picks a scalar key that some non-root chart holds under global in its defaults such that no chart
 // and one of its descendants both hold it ("" if there is none).
-func c04LonelyGlobalKey(t *rapid.T, root *refChart) string {
+func c04LonelyGlobalKey(t *rapid.T, root *refChart, user map[string]interface{}) string {
 	holders := map[string][][]string{} // key -> paths (chart names from the root) of the charts defining it
+	// the user's values are sections too: a global table at any depth of them counts as a definition at that chart
+	var userSections func(sec map[string]interface{}, sp []string)
+	userSections = func(sec map[string]interface{}, sp []string) {
+		if g, ok := sec["global"].(map[string]interface{}); ok {
+			for k := range g {
+				holders[k] = append(holders[k], sp)
+			}
+		}
+		for k, v := range sec {
+			if vm, ok := v.(map[string]interface{}); ok && k != "global" {
+				userSections(vm, append(append([]string{}, sp...), k))
+			}
+		}
+	}
+	userSections(user, []string{root.Name})
 	var walk func(c *refChart, path []string)
 	walk = func(c *refChart, path []string) {
 		p := append(append([]string{}, path...), c.Name)
